@@ -359,7 +359,7 @@ func (in *Interp) callInit(f *ssa.Function) {
 }
 
 var stdAllowed = map[string]bool{
-	"strings": true, "strconv": true, "errors": true, "sort": true, "slices": true, "unicode/utf8": true,
+	"errors": true, "sort": true, "slices": true, "unicode/utf8": true,
 	"unicode": true, "cmp": true, "math/bits": true, "internal/stringslite": true, "internal/bytealg": true,
 	"internal/itoa": true,
 }
